@@ -125,6 +125,7 @@ class Run:
     def boot_server(self):
         self.boots += 1
         p = self.sim.new_proc(f"server{self.boots}" if self.boots > 1 else "server", skew=self.knobs.get("skew", 1.0), role="server")
+        world.SERVER_PORTS[:] = [8001, 8002] if self.knobs.get("two_listeners") else [8001]
         self.sim.spawn(p, world.server_main)
         self.server = p
         self.ev("boot", p.name)
@@ -182,9 +183,9 @@ class RawActor:
         self.rx = None
         self.opened = False
 
-    async def open(self, timeout=30, path=""):
+    async def open(self, timeout=30, path="", port=8001):
         import websockets
-        self.ws = await asyncio.wait_for(websockets.connect("ws://simhost:8001" + path, max_size=None), timeout)
+        self.ws = await asyncio.wait_for(websockets.connect(f"ws://simhost:{port}" + path, max_size=None), timeout)
         self.opened = True
         await self.ws.send(pickle.dumps({"type": "init", "sid": self.sid}))
         self.rx = asyncio.ensure_future(self._rx())
